@@ -17,8 +17,26 @@ func key(x int) int {
 	return x
 }
 
+// order override for structures that carry their own comparator (the value tree of a TreeBidiMap):
+// 0 none (configuration "cmp"), 1 natural, 2 reversed natural
+var orderOverride int
+
+// WithOrder runs f with Less/Equiv meaning the given order (1 natural, 2 reversed natural).
+func WithOrder(o int, f func()) {
+	save := orderOverride
+	orderOverride = o
+	f()
+	orderOverride = save
+}
+
 // Less is the strict order of the configured comparator as a term (no forking).
 func Less(a, b int) bool {
+	switch orderOverride {
+	case 1:
+		return a < b
+	case 2:
+		return b < a
+	}
 	if v.CfgOr("cmp", 0) == 1 {
 		return key(b) < key(a)
 	}
@@ -26,7 +44,12 @@ func Less(a, b int) bool {
 }
 
 // Equiv: a and b compare equal under the configured comparator (term, no forking).
-func Equiv(a, b int) bool { return key(a) == key(b) }
+func Equiv(a, b int) bool {
+	if orderOverride != 0 {
+		return a == b
+	}
+	return key(a) == key(b)
+}
 
 // Cmp is the comparator handed to the library; every call is counted (property C07). Configuration "mag" is the
 // magnitude of its non-zero results (a comparator need not return exactly -1/+1: `a.prio - b.prio` style).
